@@ -184,6 +184,7 @@ bool kirsch_bounded_kfifo_queue<T, Policies...>::try_push(value_type value) {
 
     if (found_idx) {
       assert(old_value.get() == nullptr);
+      XENIUM_VERIF_POINT("kirsch_bounded_kfifo_queue.try_push.before_slot_cas");
       const marked_value new_value(raw_value, old_value.mark() + 1);
       // (1) - this release-CAS synchronizes with the acquire-load (3, 4)
       if (_queue[idx].value.compare_exchange_strong(
